@@ -33,6 +33,7 @@ func (C20) Rule() string {
 		"JSON with huge/negative/non-numeric/null numbers and broken structure; plus syntactically hostile URLs (huge sizes, negative and non-numeric coordinates, label 0 and 2^64-1, missing path parts) for GET and POST. " +
 		"After every hostile request, with background goroutines drained by the seeded scheduler: the process must be alive, the answer must not be a recovered panic (500 'Panic detected'), a trivial request and a well-formed write to the same instance must be served (a later request that hangs is a violation; a hostile request that only hangs itself is not); " +
 		"after every few requests the complete catalogue snapshot of everything the requests did not address - all other instances at all versions and the target instance at the committed version - must be unchanged. " +
+		"Requests that replace one value as a whole (node note, node log, label index POST) are also judged on their own target: answered with a client error, the value must read back as before. " +
 		"The same monitor (panic-500, process death, wedge) runs inside every other property's check on its well-formed workload. " +
 		"non-trivial = at least 6 hostile requests of at least 3 payload kinds delivered; distinct = distinct (steps, schedule) hash"
 }
